@@ -546,6 +546,9 @@ def run(prog: Program, col: Collector, tier: str, refs: Optional[Refs] = None):
     # ---------------------------------------------------------------- R17.13 wrappers report the totality of what they wrap
     col.rule("R17.13", "an interpretation that wraps a base interpretation is total exactly when its base is", floor=2)
     _wrappers_report_totality(prog, col, refs)
+    # ---------------------------------------------------------------- R17.14 what a layer contributes when it is flattened
+    col.rule("R17.14", "an interpretation that does work of its own stays in the flattened stack (subinterpretations contains self)", floor=2)
+    _flattening_keeps_workers(prog, col, refs)
     return col
 
 
@@ -1207,3 +1210,34 @@ def _wrappers_report_totality(prog: Program, col: Collector, refs: Refs):
                   f"{'is inherited: False' if m is None else 'returns something else'}): entering it layers it over the whole active stack instead of replacing it, so each use deepens the "
                   "flattened stack and a legal nest of partial interpretations overflows the layer limit on entry", (m or interp).loc())
     col.cur.analysed["wrapper_interpretations"] = n
+
+
+def _flattening_keeps_workers(prog: Program, col: Collector, refs: Refs):
+    """PrioritizedInterpretation flattens its arguments through their `subinterpretations` and afterwards asks only those.  The base
+    class answers (self,); the prioritized sequence answers its own members, and its interpret() does nothing but ask them.  Any
+    other class that overrides `subinterpretations` without listing itself is dropped from every stack it is layered into - its own
+    interpret() (a memo lookup, a tape) never runs, and a partial interpretation above it falls through to the wrong layer."""
+    base = "funsor.interpretations.Interpretation"
+    n = 0
+    for c in prog.classes.values():
+        if not (c.fq == base or prog.is_subclass(c.fq, base)):
+            continue
+        m = c.methods.get("subinterpretations")
+        if m is None:
+            continue
+        n += 1
+        selfn = m.positional[0]
+        rets = [r for r in walk_no_nested(m.node) if isinstance(r, ast.Return) and r.value is not None]
+        lists_self = bool(rets) and all(isinstance(r.value, (ast.Tuple, ast.List)) and any(isinstance(e, ast.Name) and e.id == selfn for e in r.value.elts) for r in rets)
+        # pure sequencer: interpret() only iterates over the attribute that subinterpretations returns
+        attr = norm(rets[0].value) if len(rets) == 1 else None
+        interp = c.methods.get("interpret")
+        sequencer = False
+        if interp is not None and attr is not None and attr.startswith(selfn + "."):
+            loops = [lp for lp in walk_no_nested(interp.node) if isinstance(lp, ast.For)]
+            sequencer = len(loops) == 1 and norm(loops[0].iter).replace(interp.positional[0] + ".", selfn + ".", 1) == attr
+        col.check(lists_self or sequencer, f"{c.fq}::subinterpretations", "returns (self,)" if lists_self else "a pure sequence of its members, which interpret() merely asks in order",
+                  f"{c.name}.subinterpretations returns `{norm(rets[0].value) if rets else '?'}`, which does not contain the {c.name} itself although {c.name}.interpret does work of its own: "
+                  "when the interpretation is layered (entered under or over a partial interpretation) the flattened stack no longer contains it, so its interpret() never runs and "
+                  "partial interpretations fall through past it", m.loc())
+    col.cur.analysed["subinterpretations_definitions"] = n
